@@ -22,6 +22,7 @@ def plan(tier, seed):
 
 
 def gen_case(rng, ctx):
+    gen.OUTLIER["n_only_up_to"] = 9      # the exact oracle limits the number of elements; rankings are not limited
     thorough = ctx.tier == "thorough"
     nmax = (9 if rng.random() < 0.2 else 7) if thorough else (7 if rng.random() < 0.4 else 6)
     cls, ds = gen.dataset(rng, classes="D11 D11 D11 D10 D10 D8 D8 D9 D3 D2 D7", nmax=nmax, mmax=6)
